@@ -377,29 +377,79 @@ def exec_for(I, st, node):
             yield from unroll_for(I, st1, node, items, 0)
             continue
         linv = I.loop_invariants.get((qual, ordinal))
+        if linv is None and sym.get("kind") == "count" and isinstance(sym["lo"], int) and isinstance(sym["step"], int):
+            # itertools.count(concrete start, concrete step) without invariant: the items are produced one by one for as
+            # long as some path is still inside the loop (exact unrolling; Unsupported beyond MAX_COUNT_ITEMS)
+            yield from unroll_count(I, st1, node, sym["lo"], sym["step"], qual, ordinal)
+            continue
         if linv is None:
             raise Unsupported("for loop #%d of %s iterates a symbolic-length sequence and has no invariant" % (ordinal, qual))
         yield from invariant_for(I, st1, node, sym, linv, qual, ordinal)
 
 
 def unroll_for(I, st, node, items, k):
-    if k == len(items):
-        if node.orelse:
-            yield from I.ex_block(node.orelse, st)
-        else:
-            yield st, None
-        return
-    for st1, r in list(I.assign(node.target, items[k], st)):
-        if isinstance(r, Exc):
-            yield st1, ("raise", r.exc)
-            continue
-        for st2, ctrl in list(I.ex_block(node.body, st1)):
-            if ctrl is None or ctrl[0] == "continue":
-                yield from unroll_for(I, st2, node, items, k + 1)
-            elif ctrl[0] == "break":
-                yield st2, None
+    # An iteration with exactly one outcome that falls through is followed by the next one in a loop, not by recursion
+    # (same order of evaluation as the recursive formulation; a loop over a thousand concrete items would otherwise
+    # exceed the interpreter's recursion limit).
+    while True:
+        if k == len(items):
+            if node.orelse:
+                yield from I.ex_block(node.orelse, st)
             else:
-                yield st2, ctrl
+                yield st, None
+            return
+        outs = list(I.assign(node.target, items[k], st))
+        if len(outs) == 1 and not isinstance(outs[0][1], Exc):
+            body = list(I.ex_block(node.body, outs[0][0]))
+            if len(body) == 1 and (body[0][1] is None or body[0][1][0] == "continue"):
+                st = body[0][0]
+                k += 1
+                continue
+            yield from _unroll_rest(I, body, node, items, k)
+            return
+        for st1, r in outs:
+            if isinstance(r, Exc):
+                yield st1, ("raise", r.exc)
+                continue
+            yield from _unroll_rest(I, list(I.ex_block(node.body, st1)), node, items, k)
+        return
+
+
+MAX_COUNT_ITEMS = 300
+
+
+def unroll_count(I, st, node, lo, step, qual, ordinal):
+    """`for x in itertools.count(lo, step)` with concrete lo / step: iteration k binds x = lo + k * step; the loop is left
+    only by break / return / raise.  Worklist instead of recursion; a path that is still looping after MAX_COUNT_ITEMS
+    items makes the lemma undecided."""
+    work = [(st, 0)]
+    while work:
+        st0, k = work.pop(0)
+        if k >= MAX_COUNT_ITEMS:
+            raise Unsupported("for loop #%d of %s over itertools.count() is still running after %d items (no invariant given)" % (ordinal, qual, k))
+        nxt = []
+        for st1, r in list(I.assign(node.target, lo + k * step, st0)):
+            if isinstance(r, Exc):
+                yield st1, ("raise", r.exc)
+                continue
+            for st2, ctrl in list(I.ex_block(node.body, st1)):
+                if ctrl is None or ctrl[0] == "continue":
+                    nxt.append((st2, k + 1))
+                elif ctrl[0] == "break":
+                    yield st2, None
+                else:
+                    yield st2, ctrl
+        work = nxt + work
+
+
+def _unroll_rest(I, body, node, items, k):
+    for st2, ctrl in body:
+        if ctrl is None or ctrl[0] == "continue":
+            yield from unroll_for(I, st2, node, items, k + 1)
+        elif ctrl[0] == "break":
+            yield st2, None
+        else:
+            yield st2, ctrl
 
 
 def symbolic_iter(I, st, it):
